@@ -123,6 +123,8 @@ def main(tier, replay=None):
     # finalised exactly once although the same sweep has it on its own list (judged by HeapTrace, one process per program)
     cg = runner.Campaign(chk, hgc, "HeapTrace", "HeapTrace_final.cfg", per_process=True)
     cg.run([], [["reset", "boxcont %d" % m] for m in ((9, 40, 300) if quick else (5, 9, 40, 300, 3000))], "collected-containers", sample=False)
+    # ... and containers of Boxes that stay reachable while collections run (hashed / scattered keys): nothing they own is finalised
+    cg.run([], [["reset", "boxheld %d" % m] for m in ((12, 60, 400) if quick else (6, 12, 60, 400, 3000))], "held-containers", sample=False)
     cg.report()
 
     chk.cov["rule"] = ("an execution = one history of container calls with Probe (or Box-of-Probe) elements on the real "
